@@ -16,19 +16,19 @@ TECH = {
     'C04': 'runtime monitor: position-wise reference model evaluated on the table read back from the real .skf; overflow-checked slice',
     'C05': 'runtime monitor: relation between two outputs of the same run (VCF vs alignment) plus model cross-check',
     'C06': 'runtime monitor: exact-rational row predicate over arbitrary tables constructed through ska build; sub-multiset relations between runs',
-    'C07': 'differential runtime monitor (merge vs joint build) plus reference model; refusal monitor',
-    'C08': 'differential runtime monitor (delete vs build of the rest) plus reference model; refusal/byte-identity monitor',
+    'C07': 'differential runtime monitor (merge vs joint build) plus reference model; generic decode of the stored object (harness); refusal monitor; resource-limit slice (open files)',
+    'C08': 'differential runtime monitor (delete vs build of the rest) plus reference model; generic decode of the stored object (harness); refusal/byte-identity and unwritable-output monitors',
     'C09': 'differential runtime monitor: in-memory vs saved+reloaded results through a library harness, CLI route comparison, narrow-file scenarios against the model; overflow-checked slice',
     'C10': 'history monitor: model table checked after every step of generated operation histories, final differential against a content-only fresh file',
-    'C11': 'schedule-perturbation runtime monitor: repeated runs under thread counts, seeded jitter at hook points, CPU pinning; event log of (site,item,thread); ThreadSanitizer build (thorough)',
-    'C12': 'runtime monitor with two oracles: exact counting model of the output, and an offline checker over the hooked event log of the real counting filter (call sequence, Bloom no-false-negative, exactly-at-threshold accept)',
+    'C11': 'schedule-perturbation runtime monitor: repeated runs under thread counts, seeded jitter at hook points, CPU pinning; event log of (site,item,thread); ThreadSanitizer build (a slice in quick, every command in thorough)',
+    'C12': 'runtime monitor with two oracles (plus input fault injection, in-process multi-build through the harness, a multi-million k-mer gzip input): exact counting model of the output, and an offline checker over the hooked event log of the real counting filter (call sequence, Bloom no-false-negative, exactly-at-threshold accept)',
     'C13': 'runtime monitor: reference model plus model-free partition and idempotence relations',
-    'C14': 'runtime monitor: exact-rational distance model over constructed tables; permutation and thread-count invariance',
-    'C15': 'complete enumeration of the lookup tables and classifiers dumped from the real code (native and under Miri) against set algebra; uses through build/map',
-    'C16': 'complete enumeration (k<=9 quick, k<=11 thorough) plus structured/random k-mers through a harness against a string-level reference; rolling-vs-scratch differential; Miri and overflow-checked slices',
+    'C14': 'runtime monitor: exact-rational distance model over constructed tables; permutation, thread-count and file-history invariance; library second-call differential through the harness',
+    'C15': 'complete enumeration of the lookup tables and classifiers dumped from the real code (native and under Miri) against set algebra; use-site monitors through build, map, align, weed and distance',
+    'C16': 'complete enumeration (k<=9 quick, k<=11 thorough) plus structured/random k-mers through a harness against a string-level reference; rolling-vs-scratch differential; Miri and overflow-checked slices; command-line use sites (build --min-count auto vs cov, map first windows)',
     'C17': 'runtime monitor with planted-truth oracle and a well-formedness predicate; thread counts and seeded jitter',
     'C18': 'runtime monitor: substring tests of every indel record against the generated sample sequences; location/carrier matching; recall as a population statistic',
-    'C19': 'fault enumeration: every truncation and every single-bit flip of valid files through the CLI and the library load (sharded, address-space limited); subcommand sampling; strace kill/ENOSPC injection at every write (thorough)',
+    'C19': 'fault enumeration: every truncation and every single-bit flip of valid files through the CLI and the library load (sharded, address-space limited); subcommand sampling; strace kill/ENOSPC injection at every write of in-place rewrites; valgrind memcheck on the command line; AddressSanitizer harness (thorough)',
     'C20': 'runtime monitor: exact multiplicity model, independent mixture/cutoff implementation evaluated at the fitted parameters read through hook accessors, numerical-gradient identity of the hooked likelihood',
 }
 REF = {pid: 'DESIGN.md section 6, %s' % pid for pid in TECH}
